@@ -25,6 +25,7 @@ def t_fmt(chk, ix):
     rules_formatter.check_json_cursor(chk, ix)
     rules_formatter.check_json_keys(chk, ix)
     rules_formatter.check_json_text_roundtrip(chk, ix)
+    rules_formatter.check_indent(chk, ix)
     rules_formatter.check_display_tables(chk, ix)
     rules_formatter.check_step_queues(chk, ix)
 
@@ -32,5 +33,5 @@ def t_fmt(chk, ix):
 def run(chk, ix, tier):
     run_parallel(chk, [(t_fmt, ()), (T.t_step, (("F1",),)), (T.t_scenario, (("F2",),)), (T.t_run_model, (("F4",),))]
                  + [(T.t_container, (("F3",), (w,))) for w in ("Feature", "Rule")])
-    for r, n in (("F1", 8), ("F2", 1), ("F3", 2), ("F4", 1), ("F5", 2), ("F6", 6), ("F7", 2), ("F8", 3), ("F10", 7)):
+    for r, n in (("F1", 8), ("F2", 1), ("F3", 2), ("F4", 1), ("F5", 2), ("F6", 6), ("F7", 2), ("F8", 3), ("F10", 7), ("F11", 8)):
         chk.require_instances(r, n)
